@@ -15,6 +15,7 @@ import ast
 import copy
 import random
 import signal
+import sys
 from typing import Any, Optional
 
 from .. import codec, core, pyz
@@ -128,8 +129,7 @@ class _Instrument:
     assignment is followed by __mk__("s", site); loops announce entry / iteration / exit.  Collects the node table
     (syntactic facts read from the pristine tree) and the table of assignment sites."""
 
-    def __init__(self, alias: dict[str, list[str]], leaving_matches: set[int]) -> None:
-        self.leaving_matches = leaving_matches      # line numbers of the match statements the checker found exhaustive
+    def __init__(self, alias: dict[str, list[str]]) -> None:
         self.orig: list[ast.AST] = []
         self.info: list[dict] = []
         self.stores: list[dict] = []
@@ -264,21 +264,6 @@ class _Instrument:
         out: list[ast.stmt] = []
         for s in stmts:
             out.extend(self.stmt(s))
-        # The checker marked the scope of this block as leaving because a match statement in it (directly, or inside a
-        # with statement, which opens no scope of its own) exhausted its subject (observed, see prepare()): announce that
-        # the end of such a block was nevertheless reached.
-        if stmts and not top and not isinstance(stmts[-1], (ast.Return, ast.Raise, ast.Break, ast.Continue)):
-            for ln in self._leaving_matches_in(stmts):
-                out.append(self.mark("xb", ln))
-        return out
-
-    def _leaving_matches_in(self, stmts: list[ast.stmt]) -> list[int]:
-        out = []
-        for s in stmts:
-            if isinstance(s, ast.Match) and s.lineno in self.leaving_matches:
-                out.append(s.lineno)
-            elif isinstance(s, ast.With):
-                out += self._leaving_matches_in(s.body)
         return out
 
     @staticmethod
@@ -393,9 +378,7 @@ class _Instrument:
                     marks.append(self.mark("s", self.new_store(names, self.reads(it.context_expr) + extra, self._root(ce))))
             self.ntry += 1
             T = self.ntry
-            # (wj: the block contains a break / continue statement, see MiniPyTrace "wj")
-            has_jump = any(isinstance(nd, (ast.Break, ast.Continue)) for b in s.body for nd in ast.walk(b))
-            return [self.mark("wj" if has_jump else "we", T), ast.copy_location(ast.With(items=items, body=marks + self.block(s.body, top=True) + [self.mark("wn", T)]), s),
+            return [self.mark("we", T), ast.copy_location(ast.With(items=items, body=marks + self.block(s.body, top=True) + [self.mark("wn", T)]), s),
                     self.mark("wq", T)]
         if isinstance(s, ast.Match):
             subj = self.expr(s.subject)
@@ -409,16 +392,14 @@ class _Instrument:
                 guard = self.expr(c.guard)
                 k = self.new_store(names, self.reads(s.subject), sidx, via="guard" if c.guard is not None else "")
                 # the captures are bound before the guard runs
-                entered = [self.mark("xm", s.lineno)] if s.lineno in self.leaving_matches else []
                 if guard is not None:
                     guard = ast.BoolOp(op=ast.And(), values=[ast.Call(func=ast.Name(id="__mk__", ctx=ast.Load()),
                                                                       args=[ast.Constant(value="s"), ast.Constant(value=k)], keywords=[]), guard])
-                    body = [self.mark("cb", 0)] + entered + self.block(c.body)
+                    body = [self.mark("cb", 0)] + self.block(c.body)
                 else:
-                    body = [self.mark("s", k), self.mark("cb", 0)] + entered + self.block(c.body)
+                    body = [self.mark("s", k), self.mark("cb", 0)] + self.block(c.body)
                 cases.append(ast.match_case(pattern=c.pattern, guard=guard, body=body))
-            pre = [self.mark("xs", s.lineno)] if s.lineno in self.leaving_matches else []
-            return pre + [ast.copy_location(ast.Match(subject=subj, cases=cases), s), self.mark("mx", 0)]
+            return [ast.copy_location(ast.Match(subject=subj, cases=cases), s), self.mark("mx", 0)]
         if isinstance(s, ast.Delete):
             new = self._children(s, skip_func=False)
             out = [new]
@@ -486,6 +467,21 @@ def _too_deep(x: Any, d: int = 0) -> bool:
     return False
 
 
+def _holds(x: Any, obj: Any, depth: int) -> bool:
+    """x is obj or contains it (by identity)"""
+    if x is obj:
+        return True
+    if depth > 4:
+        return False
+    if isinstance(x, (list, tuple, set, frozenset)):
+        return any(_holds(e, obj, depth + 1) for e in x)
+    if isinstance(x, dict):
+        return any(_holds(v, obj, depth + 1) for v in x.values())
+    if hasattr(x, "__dict__") and not isinstance(x, type):
+        return any(_holds(v, obj, depth + 1) for v in vars(x).values())
+    return False
+
+
 SKIP_T = {"k": "skip"}
 NO_OBJ = {"c": "other", "v": "other", "items": []}
 
@@ -521,28 +517,18 @@ def prepare(src: str) -> dict:
         tree = ast.parse(src)
     except SyntaxError as exc:
         raise core.MachineryError(f"generated function is not valid syntax: {exc}\n{src}")
-    # Observations (no change of the checker's behaviour; both wrappers call the original method and return its result):
-    # (1) which match statements did the checker find exhaustive, i.e. for which did visit_Match put the LEAVES_SCOPE
-    #     marker into the scope that is current at the match statement;
-    # (2) the value the checking phase inferred for every expression node at the time of each visit (a node inside a
-    #     comprehension over a tuple of known length or inside a finally block is visited several times: the inferred type
-    #     of the node is the union over its visits; taken at visit time because a later in-place operation on a known
-    #     list can change the object a KnownValue holds).
+    # Observation (no change of the checker's behaviour; the wrappers call the original method and return its result):
+    # the value the checking phase inferred for every expression node at the time of each visit (a node inside a
+    # comprehension over a tuple of known length or inside a finally block is visited several times: the inferred type
+    # of the node is the union over its visits; taken at visit time because a later in-place operation on a known
+    # list can change the object a KnownValue holds).
     from pyanalyze import name_check_visitor as ncv
-    from pyanalyze.stacked_scopes import LEAVES_SCOPE
 
-    leaving_matches: set[int] = set()
     visits: dict[tuple, dict[str, Optional[dict]]] = {}
-    orig_set = ncv.NameCheckVisitor._set_name_in_scope
     orig_visit = ncv.NameCheckVisitor.visit
     orig_composite = ncv.NameCheckVisitor.composite_from_node
     check_state = ncv.VisitorState.check_names
     first_line = len(src.split("\ndef f(")[0].split("\n")) + 1
-
-    def spy_set(self, varname, node, *a, **k):  # type: ignore[no-untyped-def]
-        if varname == LEAVES_SCOPE and isinstance(node, ast.Match):
-            leaving_matches.add(node.lineno)
-        return orig_set(self, varname, node, *a, **k)
 
     def spy_visit(self, node):  # type: ignore[no-untyped-def]
         ret = orig_visit(self, node)
@@ -558,7 +544,6 @@ def prepare(src: str) -> dict:
             visits.setdefault(_pos(node), {})[core.canon(t)] = t
         return ret
 
-    ncv.NameCheckVisitor._set_name_in_scope = spy_set
     ncv.NameCheckVisitor.visit = spy_visit
     ncv.NameCheckVisitor.composite_from_node = spy_composite
     try:
@@ -566,7 +551,6 @@ def prepare(src: str) -> dict:
     except Exception as exc:  # noqa: BLE001   (a crash is a C12 matter; here the case is just unusable)
         return {"error": f"checker raised {type(exc).__name__}: {exc}"}
     finally:
-        ncv.NameCheckVisitor._set_name_in_scope = orig_set
         ncv.NameCheckVisitor.visit = orig_visit
         ncv.NameCheckVisitor.composite_from_node = orig_composite
     by_pos: dict[tuple, Optional[dict]] = {}
@@ -579,7 +563,7 @@ def prepare(src: str) -> dict:
         else:
             by_pos[pos] = {"k": "union", "ms": ts}
     fdef = tree.body[-1]
-    inst = _Instrument(_comp_alias(fdef), leaving_matches)
+    inst = _Instrument(_comp_alias(fdef))
     new_body = inst.block(fdef.body, top=True)
     if inst.nloops > MAX_LOOPS or inst.ntry > MAX_LOOPS:
         return {"error": "too many loops"}
@@ -649,13 +633,31 @@ def execute(prep: dict, ax: dict, ay: dict) -> tuple[list[dict], dict[str, int]]
         events.append({"k": "e", "n": i, "v": obj, "i": inf if inf is not None else SKIP_T, "j": judged})
         if info["st"]:
             events.append({"k": "s", "site": info["st"]})
+            aliased(info["st"], sys._getframe(1))
         return value
+
+    def aliased(site: int, frame: Any) -> None:
+        """Observation for the property's premise (no container is mutated through an alias): after an in-place update of
+        the container held by the store's target, the other variables of the function that hold or contain that very
+        object (identity) are reported; TLC files unsound events reading them as outside the property's domain."""
+        st = prep["stores"][site - 1]
+        if not st["via"] or not st["names"]:
+            return
+        loc = frame.f_locals
+        tgt = loc.get(st["names"][0])
+        if not isinstance(tgt, (list, dict, set)):
+            return
+        names = sorted(n for n in LOCALS if n not in st["names"] and n in loc and _holds(loc[n], tgt, 0))
+        if names:
+            events.append({"k": "al", "names": names})
 
     def mk(kind: str, arg: int) -> bool:
         if state["stop"] or len(events) >= EVENT_CAP:        # also ends loops that evaluate nothing
             state["stop"] = True
             raise _Stop()
         events.append({"k": "s", "site": arg} if kind == "s" else {"k": kind, "loop": arg})
+        if kind == "s":
+            aliased(arg, sys._getframe(1))
         return True
 
     def alarm(signum: int, frame: Any) -> None:
@@ -804,15 +806,16 @@ CANNED = [
      "dev:tuple-add-drops-left-operand"),
     ("tuple-iadd", "def f(x: tuple[int, str], y: tuple[float, ...]):", ["x += y"], (1, "a"), (1.5,),
      "dev:tuple-add-drops-left-operand"),
+    # repaired in the code (38601f1): sound now; REPAIRED below re-creates what the old code inferred
     ("match-leaves", "def f(x: object, y: int):",
      ["if isinstance(x, str):", "    pass", "else:", "    match x:", "        case int():", "            pass", "        case _:",
-      "            v = 'a'"], 1.5, 0, "dev:exhaustive-match-leaves-block"),
+      "            v = 'a'"], 1.5, 0, ""),
     ("unmodelled", "def f(x: int, y: int):", ["m.insert(0, x)"], 1, 0, "dev:unmodelled-container-mutator"),
     ("mutation-lost", "def f(x: int, y: int):", ["try:", "    m.append(None)", "    firstkey(x)", "except Exception:", "    v = len(m)"], 1, 0,
      "dev:mutation-lost-on-exception-path"),
     ("with-mutation", "def f(x: int, y: int):", ["with maybe_suppress():", "    m.append(1)"], 1, 0, "dev:mutation-lost-on-exception-path"),
-    ("jump-in-with", "def f(x: int, y: int):", ["with suppress(Exception):", "    while y:", "        continue", "    v = 'a'"], 1, 0,
-     "dev:loop-jump-in-suppressing-with"),
+    # repaired in the code (440760d)
+    ("jump-in-with", "def f(x: int, y: int):", ["with suppress(Exception):", "    while y:", "        continue", "    v = 'a'"], 1, 0, ""),
     ("failed-guard", "def f(x: list[int], y: int):", ["match x:", "    case [a, *rest] if rest:", "        return 1", "    case _:", "        v = 1"],
      [1], 0, "dev:capture-kept-after-failed-guard"),
     ("known-list-iadd", "def f(x: int, y: int):", ["if y:", "    m += [1]"], 1, 0, "dev:known-list-mutated-in-place"),
@@ -821,6 +824,10 @@ CANNED = [
     ("composite-in-loop", "def f(x: list[Union[int, Literal[None]]], y: Iterable[str]):",
      ["y", "while (w := y):", "    if x[0] == 1:", "        v = 1", "    else:", "        assert isinstance(x[0], int)"], [None, 1], ("a",),
      "dev:composite-narrowing-carried-around-loop"),
+    ("alias", "def f(x: list[int], y: int):", ["v = x", "v += [None]"], [1], 0, "dom:mutated-through-alias"),
+    ("dict-union", "def f(x: int, y: int):", ["if x:", "    d['a'] = 1", "d['j'] = 1"], 1, 0, "dev:dict-mutation-on-union-forgets-keys"),
+    ("plain-dict-for-typeddict", "def f(x: dict[str, int], y: HU.TD_aNwint_bRwstr):", ["v = bothof(x, y)"], {}, {"b": "a"},
+     "dev:plain-dict-accepted-for-typeddict"),
     ("from-any", "def f(x: bool, y: Union[Literal[1], Literal[2]]):", ["x = Box(x).first", "v = min(x, y)"], True, 1, "dom:flows-from-any"),
     ("abstract-truthy", "def f(x: Iterable[str], y: int):", ["y", "v = (not x)"], [], 0, "dev:abstract-type-assumed-truthy"),
     ("extend-literal", "def f(x: list[int], y: int):", ["x += 'a'"], [1], 0, "dev:list-extend-literal-str-unchecked"),
@@ -832,6 +839,12 @@ CANNED = [
     ("clean", "def f(x: Union[int, None], y: int):", ["if x is None:", "    v = 'a'", "else:", "    v = x + 1", "for e in (1, 2):", "    w = e"],
      1, 0, ""),
 ]
+
+
+# defects repaired in /repo whose mechanism is kept as a sensitivity test only: what the old code inferred for the last
+# read of v (Literal[0], the value before the block)
+REPAIRED = {"match-leaves": {"k": "known", "o": {"c": "int", "v": "0", "items": []}},
+            "jump-in-with": {"k": "known", "o": {"c": "int", "v": "0", "items": []}}}
 
 
 def selftest(check: core.Check) -> None:
@@ -856,17 +869,25 @@ def selftest(check: core.Check) -> None:
         # corrupted copies: the read of y in the epilogue (match-leaves: the first read of x, before the block ends)
         # the observation to corrupt must lie outside what the class's mechanism explains: by default the read of y in the
         # epilogue; for the classes that put the whole state in doubt from some point on, a read before that point
-        target, which = {"match-leaves": ("x", "first"), "rejected": ("x", "first"), "abstract-truthy": ("y", "first")}.get(name, ("y", "last"))
+        target, which = {"rejected": ("x", "first"), "abstract-truthy": ("y", "first")}.get(name, ("y", "last"))
         idxs = [i for i, e in enumerate(o["ev"]) if e["k"] == "e" and e["j"] and o["nodes"][e["n"] - 1]["t"] == target]
         if not idxs:
             raise core.MachineryError(f"self-test {name}: no judged read of {target}")
         at = idxs[0] if which == "first" else idxs[-1]
-        for k, (bad, clause) in enumerate(((none_t, "viol:Sound"), (never_t, "viol:NeverIsNeverReached")), start=1):
+        corruptions = [(at, none_t, "viol:Sound"), (at, never_t, "viol:NeverIsNeverReached")]
+        if name in REPAIRED:
+            # the observation the repaired defect used to produce (v read after the block, typed as before the block)
+            # is not excused by anything any more
+            vs_ = [i for i, e in enumerate(o["ev"]) if e["k"] == "e" and e["j"] and o["nodes"][e["n"] - 1]["t"] == "v"]
+            if not vs_ or o["ev"][vs_[-1]]["v"] != _o("a"):
+                raise core.MachineryError(f"self-test {name}: the canned function does not reach the read of v with 'a'")
+            corruptions.append((vs_[-1], REPAIRED[name], "viol:Sound"))
+        for k, (pos, bad, clause) in enumerate(corruptions, start=1):
             ev = [dict(e) for e in o["ev"]]
-            ev[at]["i"] = bad
+            ev[pos]["i"] = bad
             oc = {**o, "tid": o["tid"] + k, "ev": ev}
             obs.append(oc)
-            expect[oc["tid"]] = (name + "+corrupted", verdict, (at + 1, clause))
+            expect[oc["tid"]] = (name + "+corrupted", verdict, (pos + 1, clause))
     verdicts, stats = adjudicate(obs)
     check.add_trace_stats(stats)
     seen = {}
@@ -876,6 +897,20 @@ def selftest(check: core.Check) -> None:
         vs = [parse_verdict(v) for v in verdicts.get(o["tid"], [])]
         got = {f"{k}:{key}" for k, key, idx in vs if corrupted is None or idx != corrupted[0]}
         want = {verdict} if verdict else set()
+        real_viol = [(k, key, idx) for k, key, idx in vs if k == "viol" and (corrupted is None or idx != corrupted[0])]
+        if real_viol:
+            # a real, uncorrupted observation of a canned function violates the property on this tree: that is a finding
+            # about the tree, reported like any other violation, not a problem of the machinery
+            if corrupted is None:
+                for k, key, idx in real_viol:
+                    ev = o["ev"][idx - 1]
+                    node = o["nodes"][ev["n"] - 1]["t"]
+                    check.violation(core.canon({"src": o["src"].split("def f(")[1], "node": node, "args": o["args"]}), key,
+                                    {"case": o["case"], "src": o["src"], "args": o["args"], "node": node, "event": ev,
+                                     "source": "self-test:" + name})
+            got = {g for g in got if not g.startswith("viol:")}
+            if not got:
+                continue
         if verdict and not got:
             # the canned function shows no unsound event on this tree (the defect of the class was repaired, or a seeded
             # change hides it): recorded, not an error -- what must never happen is a wrong classification
@@ -890,7 +925,8 @@ def selftest(check: core.Check) -> None:
     check.cov["selftest"] = {"canned_functions": len(CANNED), "observations": len(obs),
                              "classes_reached": sorted({v for vs in seen.values() for v in vs}),
                              "classes_not_reached_on_this_tree": sorted(not_reached),
-                             "corrupted_observations_rejected": 2 * len(CANNED)}
+                             "corrupted_observations_rejected": 2 * len(CANNED) + len(REPAIRED),
+                             "repaired_mechanisms_rejected": sorted(REPAIRED)}
 
 
 def run(check: core.Check) -> None:
